@@ -21,7 +21,7 @@ PROPS = {
     'C13': {
         'lean_targets': ['Cqos.Props.C13'],
         'theorems': ['Cqos.C13.c13_valid', 'Cqos.C13.c13_equiv', 'Cqos.C13.c13_error_iff',
-                     'Cqos.C13.c13_optimize_flatten', 'Cqos.C13.c13_idempotent', 'Cqos.C13.c13_unfixed_counterexample'],
+                     'Cqos.C13.c13_optimize_flatten', 'Cqos.C13.c13_idempotent', 'Cqos.C13.c13_flatten_one', 'Cqos.C13.c13_unfixed_counterexample'],
         'runs': [{'cmd': 'pure', 'args': ['-family', 'c13']}],
         'monitor_prefix': ['C13'],
         'level': 'proof',
